@@ -814,6 +814,8 @@ class Exec:
         for k, v in fr.env.items():
             if k != 'Self' and isinstance(v, int) and re.search(r'\b%s\b' % k, s):
                 s = re.sub(r'(?<![\w:])%s\b(?!\s*[:(])' % k, str(v), s)
+            elif k != 'Self' and isinstance(v, str) and len(k) <= 2 and re.search(r'\b%s\b' % k, s):
+                s = re.sub(r'(?<![\w:])%s\b(?![\w(])' % k, v, s)       # type parameter of a generic impl (e.g. F := Felt)
         return s
 
     # rvalues ---------------------------------------------------------
